@@ -229,6 +229,17 @@ func (s *serfQueries) sendKeyResponse(q *Query, resp *nodeKeyResponse) {
 	}
 }
 
+// decodeKeyRequest decodes the key request carried by a key query, skipping
+// the leading message type byte. The payload comes from the network, so one
+// that is too short to hold the type byte is reported as an error instead of
+// being sliced.
+func decodeKeyRequest(payload []byte, req *keyRequest) error {
+	if len(payload) < 1 {
+		return fmt.Errorf("key request payload is empty")
+	}
+	return decodeMessage(payload[1:], req)
+}
+
 // handleInstallKey is invoked whenever a new encryption key is received from
 // another member in the cluster, and handles the process of installing it onto
 // the memberlist keyring. This type of query may fail if the provided key does
@@ -239,7 +250,7 @@ func (s *serfQueries) handleInstallKey(q *Query) {
 	keyring := s.serf.config.MemberlistConfig.Keyring
 	req := keyRequest{}
 
-	err := decodeMessage(q.Payload[1:], &req)
+	err := decodeKeyRequest(q.Payload, &req)
 	if err != nil {
 		s.logger.Printf("[ERR] serf: Failed to decode key request: %v", err)
 		goto SEND
@@ -281,7 +292,7 @@ func (s *serfQueries) handleUseKey(q *Query) {
 	keyring := s.serf.config.MemberlistConfig.Keyring
 	req := keyRequest{}
 
-	err := decodeMessage(q.Payload[1:], &req)
+	err := decodeKeyRequest(q.Payload, &req)
 	if err != nil {
 		s.logger.Printf("[ERR] serf: Failed to decode key request: %v", err)
 		goto SEND
@@ -321,7 +332,7 @@ func (s *serfQueries) handleRemoveKey(q *Query) {
 	keyring := s.serf.config.MemberlistConfig.Keyring
 	req := keyRequest{}
 
-	err := decodeMessage(q.Payload[1:], &req)
+	err := decodeKeyRequest(q.Payload, &req)
 	if err != nil {
 		s.logger.Printf("[ERR] serf: Failed to decode key request: %v", err)
 		goto SEND
